@@ -1567,6 +1567,10 @@ class AstEval:
         val = await self.aeval(arg.value)
         if isinstance(arg.ctx, ast.Store):
             return EvalAttrSet(val, arg.attr)
+        if arg.attr == "__init__" and getattr(val, "__init__evalfunc_wrap__", None) is not None:
+            # a script-defined __init__ is kept under another name: Base.__init__(self, ...) and
+            # super(Class, self).__init__(...) have to reach it
+            return getattr(val, "__init__evalfunc_wrap__")
         return getattr(val, arg.attr)
 
     async def ast_name(self, arg):
